@@ -55,7 +55,7 @@ CLAIMED["C15"] = dict(
          "fields fail unwritten, the tunnel proceeds only after an offered method and success replies, UDP header wrap/unwrap round "
          "trip and totality, credentials split at the first colon (with a proven base64 round trip); tied by constants/flags from the "
          "translator and a differential run of the real socks5_client::connect over an in-memory duplex against a scripted server "
-         "(all selections, statuses, reply codes, truncation at every byte, segmentations), with the grammar as oracle on the real bytes; the stream handed on after a successful CONNECT starts exactly behind the server's reply (theorem tunnel_stream_follows_the_reply; the door returns the stream, every cut inside the reply is exercised); end to end: the real endpoint configured with a SOCKS5 upstream against a scripted SOCKS5 server (user/password and extended authentication, every selection / status / reply code, tunnel bytes right behind the reply, byte-wise delivery): the bytes it writes parse under the grammar, the client is answered 200 / 407 / 502+X-Warning as the dialogue went (theorem ok_answer_only_after_a_successful_dialogue)",
+         "(all selections, statuses, reply codes, truncation at every byte, segmentations), with the grammar as oracle on the real bytes; the stream handed on after a successful CONNECT starts exactly behind the server's reply (theorem tunnel_stream_follows_the_reply; the door returns the stream, every cut inside the reply is exercised); end to end: the real endpoint configured with a SOCKS5 upstream against a scripted SOCKS5 server (user/password and extended authentication, every selection / status / reply code, tunnel bytes right behind the reply, byte-wise delivery): the bytes it writes parse under the grammar, the client is answered 200 / 407 / 502+X-Warning as the dialogue went (theorem ok_answer_only_after_a_successful_dialogue); UDP through the upstream end to end: the UDP ASSOCIATE dialogue and the RFC 1928 section 7 header observed at the relay",
     note="trusted: Coq kernel, Model/Socks5.v, Spec/Rfc1928.v, Lib/Base64.v + Lib/Utf8.v (models of the base64 crate / from_utf8), "
          "translator, extraction + driver, harness doors verif::socks",
     design="DESIGN.md 5 C15")
@@ -114,7 +114,7 @@ CLAIMED["C07"] = dict(
          "the timeout, an answered port-53 flow is released on both sides, a released pair starts a fresh flow on a fresh socket, and "
          "any per-flow event leaves all other flows' entries untouched. Tied by translator facts (UdpFacts.v) and by the differential "
          "run of the real multiplexer on loopback UDP sockets in real time (echo servers, closed port, unconnectable address, expiry, "
-         "reuse) with direct oracles; a scripted read-side socket error on the single-threaded runtime (peer answers and leaves, client sends once more): a later datagram on the pair gets through and every socket is released",
+         "reuse) with direct oracles; a scripted read-side socket error on the single-threaded runtime (peer answers and leaves, client sends once more): a later datagram on the pair gets through and every socket is released; the multiplexer through the real endpoint (CONNECT _udp2 over HTTP/1.1-TLS, HTTP/2-TLS, HTTP/3-QUIC: several flows to two echo peers) and over a SOCKS5 upstream (one association per client source, scripted SOCKS5 server with a relay socket): every reply back with its flow's labels",
     note="partial: sockets, ICMP errors and time are environment operations of the model; idle times are kept 150 ms away from the "
          "window in which the tick phase decides; the SOCKS5 UDP forwarder's table (socks5_forwarder.rs) is tied by the "
          "on_connection_closed orientation fact only; trusted: Coq kernel, Model/UdpFlows.v, translator facts, extraction + driver, "
